@@ -18,7 +18,7 @@ IMPORTS = ("Base.Prelude Base.CaseLib Ops.Machine Ops.Elementwise Ops.Aggregates
            "Ops.Combinators Ops.Lift")
 MULTI = ["concat", "catch", "catch_handler", "on_error_resume_next", "repeat", "retry", "while_do", "do_while",
          "merge", "flat_map", "merge_all", "concat_map", "merge_mc", "switch_map", "switch_latest",
-         "zip", "combine_latest", "with_latest_from", "fork_join", "amb"]
+         "zip", "combine_latest", "with_latest_from", "fork_join", "amb", "take_until", "skip_until"]
 
 
 def oracle(name, inst, res):
